@@ -77,7 +77,7 @@ FINDINGS = {"findings": []}
 
 
 def load_findings():
-    p = os.path.join(os.path.dirname(os.path.dirname(os.path.abspath(__file__))), "KNOWN_FINDINGS.json")
+    p = os.environ.get("CIWMC_FINDINGS") or os.path.join(os.path.dirname(os.path.dirname(os.path.abspath(__file__))), "KNOWN_FINDINGS.json")
     if not os.path.exists(p):
         return {"findings": [], "fixed": []}
     return json.load(open(p))
